@@ -36,7 +36,20 @@ def run_tseytin(dump, outs, capture=False):
     m = tseytin_mod()
     c = ct.build_circuit(dump)
     created = []
-    real = m.collections
+    real = getattr(m, 'collections', None)
+    if real is None or not hasattr(real, 'defaultdict'):
+        capture_possible = False        # the module no longer goes through collections.defaultdict: nothing to observe
+    else:
+        capture_possible = True
+    if not capture_possible:
+        try:
+            raw = m.tseytin_transformation(c, None if outs is None else list(outs)).get_raw()
+            r = ('ok', [list(cl) for cl in raw])
+        except RecursionError:
+            r = ('err', 'OutOfFuel')
+        except Exception as e:  # noqa: BLE001
+            r = ('err', ct.err_name(e))
+        return (r, None) if capture else r
 
     class _DD(real.defaultdict):
         def __init__(self, *a, **k):
@@ -60,7 +73,13 @@ def run_tseytin(dump, outs, capture=False):
     finally:
         m.collections = real
     if capture:
-        return r, (dict(created[0]) if len(created) == 1 else None)
+        saved = dict(created[0]) if len(created) == 1 else None
+        labels = {g[0] for g in dump['gates']}
+        if saved is not None and not all(isinstance(v, int) and not isinstance(v, bool) and v > 0 for v in saved.values()):
+            saved = None                # not a label -> variable map
+        if saved is not None:
+            saved = {k: v for k, v in saved.items() if k in labels}     # auxiliary keys are not encoded gates
+        return r, saved
     return r
 
 
@@ -266,6 +285,12 @@ def template_case_term(tc):
 
 # ------------------------------------------------------------------ the direct oracle
 def selected_labels(dump, outs):
+    if outs is not None and any((not isinstance(i, int)) or isinstance(i, bool) or i < 0 for i in outs):
+        return None                     # "a selection of outputs" = positions 0 .. m-1; anything else is not promised
+    return _selected_labels(dump, outs)
+
+
+def _selected_labels(dump, outs):
     """labels of the selected outputs; None when the selection itself is invalid"""
     o = dump['outputs']
     if outs is None:
@@ -485,9 +510,21 @@ def oracle_from_circuit_fresh(dump):
         again = [list(c) for c in Cnf.from_circuit(ct.build_circuit(dump)).get_raw()]
     except Exception as e:  # noqa: BLE001
         return f'exception: Cnf.from_circuit raised {type(e).__name__}'
-    if again != snap:
-        return ('state: Cnf.from_circuit of an equal circuit differs after the clauses of an earlier result were '
-                'edited in place (the results share mutable state)')
+    if again == snap:
+        return None
+    # another clause order or another numbering of auxiliary variables is legal: the second CNF must be EXACT
+    ins = list(dump['inputs'])
+    outs = list(dump['outputs'])
+    used = {abs(l) for c in again for l in c}
+    if 0 in used:
+        return 'state: after an earlier result was edited in place, Cnf.from_circuit returns a CNF with the literal 0'
+    nvars = max([len(ins)] + list(used))
+    for bits in itertools.product([False, True], repeat=len(ins)):
+        ref = evalcorr.ref_eval(dump, dict(zip(ins, bits)))
+        msg = check_assignment(again, nvars, len(ins), bits, all(ref[o] for o in outs), {})
+        if msg:
+            return ('state: Cnf.from_circuit of an equal circuit is no longer exact after the clauses of an earlier '
+                    'result were edited in place (the results share mutable state): ' + msg)
     return None
 
 
@@ -508,9 +545,8 @@ def oracle_circuit_sat(dump, ins, raw_default, expect):
     if r.model is None:
         return 'circuit-sat model: answer True without a model'
     mv = {abs(l): l > 0 for l in r.model}
-    for cl in raw_default:
-        if not any(mv.get(abs(l), False) == (l > 0) for l in cl):
-            return f'circuit-sat model: the returned model falsifies clause {cl}'
+    # the model belongs to the CNF the query built itself; what the property promises of it: it projects onto an
+    # assignment of the inputs (variables 1..n) that makes all outputs True
     bits = [mv.get(i + 1, False) for i in range(len(ins))]
     ref = evalcorr.ref_eval(dump, dict(zip(ins, bits)))
     bad = [o for o in dump['outputs'] if not ref[o]]
